@@ -2,6 +2,7 @@
 import sys
 
 from sa import rules_r6b as R6B
+from sa import rules_r10 as R10
 from sa import report, partial as P, rules_read as RD, rules_marks as RM
 from sa import rules_lang as RLNG
 from sa import rules_reader as RRDR
@@ -49,6 +50,7 @@ def run(ctx, repo):
     ctx.call(R6B.r_uri_escapes_joined, repo)
     ctx.call(R6B.r_token_value_format, repo)
     ctx.call(R6B.r_recursion_inventory, repo)
+    ctx.call(R10.r_dispatch_names_closed, repo, FRONT)
 
 
 if __name__ == '__main__':
